@@ -604,6 +604,25 @@ class Models:
                 return obj.ta
             if attr == "__class__":
                 return self.class_value(self.prog.cls("ExchangeRate"))
+            extra = obj.__dict__.setdefault("extra", {})
+            if attr in extra:
+                return extra[attr]
+            eci = self.prog.cls("ExchangeRate")
+            if self.prog.lookup(eci, attr) is None and self.prog.lookup_attr(eci, attr) is None:
+                # an instance attribute the summary does not model: what __init__ initialises it to (a constant)
+                init = self.prog.lookup(eci, "__init__")
+                if init is not None:
+                    me = init.node.args.args[0].arg
+                    for n_ in ast.walk(init.node):
+                        tgt = None
+                        if isinstance(n_, ast.Assign) and len(n_.targets) == 1:
+                            tgt = n_.targets[0]
+                        elif isinstance(n_, ast.AnnAssign) and n_.value is not None:
+                            tgt = n_.target
+                        if isinstance(tgt, ast.Attribute) and tgt.attr == attr and isinstance(tgt.value, ast.Name) \
+                                and tgt.value.id == me and isinstance(n_.value, ast.Constant):
+                            extra[attr] = self.constant(n_.value.value, node)
+                            return extra[attr]
             return self.class_attr(obj, "ExchangeRate", attr, node)
         if isinstance(obj, TermV):
             return self.term_attr(obj, attr, node)
@@ -951,6 +970,9 @@ class Models:
                     t.has_ref = True
                     t.ref_uid = v.uid
             return
+        if isinstance(obj, RateV) and attr not in ("_unit_currency", "_term_currency", "_unit_multiple", "_term_amount"):
+            obj.__dict__.setdefault("extra", {})[attr] = v      # derived / cached instance attributes
+            return
         if isinstance(obj, (UnitV, RateV, TermV)):
             # recorded as an effect; ownership rules live in Engine B
             return
@@ -1237,6 +1259,18 @@ class Models:
             fi = self.prog.lookup(obj.ci, "__getitem__")
             if fi is not None:
                 return self.I.call_function(fi, [obj, SliceV(lo, hi)], {}, node)
+        if isinstance(obj, TermV) and step is None:
+            if obj.items is not None and not obj.normalized:
+                return TupleV([TupleV([e, x]) for e, x in obj.items][idx(lo):idx(hi)])
+            if idx(lo) == 1 and idx(hi) is None and getattr(obj, "num_choice", None) == 1:
+                # items after the numeric element of a normal form: the non-numeric remainder
+                rest = TermV(obj.mag / obj.nu, dict(obj.dims), items=None, normalized=True, origin=("split", id(obj)))
+                rest.as_items = True
+                rest.num_choice = 0
+                rest.pure = True
+                can_zero, must_zero = self.dims_zero(obj)
+                rest.empty = True if must_zero else (None if can_zero else False)
+                return rest
         self.I.unsupported(node, "slice")
 
     def set_item(self, obj, key, v, node):
